@@ -26,7 +26,10 @@ PROP = dict(
               "{3,5,6,7,9,12,17,24,31,33,48,63,65,100,129,200,255,257,1000}. BIG sizes: signals of 70000 and 140000 samples with nfft 256 "
               "and nfft 8192 (window length = nfft, overlap nfft/2 and 7/8 nfft, hamming and periodic hann, real and complex): density "
               "power identity, power-scaled level of a bin-centred tone at bin nfft/3, label of real tones at nfft/3 + {0,1/4,3/4} bin, "
-              "mscohere of scaled copies (1e3, -1e-13), filtered and independent letters",
+              "mscohere of scaled copies (1e3, -1e-13), filtered and independent letters. Power-scaled peak for window lengths that are not "
+              "powers of two: winlen {129,201,257,258,333,511,1001} x nfft {nextpow2, 2*nextpow2} x {rect, hamming, periodic hann, kaiser 5} x "
+              "overlap {0,winlen/2} x bin-centred tones (complex bins nfft/3, -nfft/8: exactly A^2; real bins nfft/8, nfft/3: A^2/2 within "
+              "the image leakage of the exact estimate) x 3 amplitudes",
         thorough="welch grid: nfft {8,16,32,64,128,256,512,1024,2048,4096}; for nfft<=128 every window length 2..nfft (every overlap for "
                  "winlen<=64, else 7 overlaps), above 7 window lengths {nfft/4,nfft/3,nfft/2,nfft/2+1,3nfft/4,nfft-1,nfft} x 7 overlaps "
                  "{0,1,wl/4,wl/2,3wl/4,wl-2,wl-1}; 10 windows at every nfft; signal lengths j in {0,1,2,5}; long signals (N=100000 at nfft "
@@ -36,7 +39,8 @@ PROP = dict(
                  "DC, next to +-0.5, bin-centred and off-centre. mscohere: segment grid as welch (full for nfft<=64, every overlap for "
                  "winlen<=32), 10 windows, the quick letters plus {-x, (3x,-7x), (1e5x,1e-5x), 1e6x, -1e-6x, delayed by 3, x+0.5*independent}, "
                  "4 overload forms; default-argument forms for every non-power-of-two winlen 2..300 and {500,513,1000,1023,1025,2000,3000,"
-                 "4095,4097}"),
+                 "4095,4097}. Power-scaled peak for every window length 129..600 (hamming, rect; nfft = nextpow2; overlap {0,winlen/2}; real and "
+                 "complex) in addition to the quick set"),
     deadline=dict(quick=150, thorough=3000),
     assumptions=COMMON_ASSUME + [
         "window lengths <= nfft, signal length >= window length, noverlap < winlen (in-domain inputs only); windows whose largest weight "
@@ -46,6 +50,8 @@ PROP = dict(
         "ties at half-bin offsets are accepted either way",
         "power-scaled peak is compared with A^2/2 (real) / A^2 (complex) only where the exact estimate equals it within 1e-12 (no leakage "
         "of the negative-frequency image into the bin); other real-tone cases are counted as skipped",
+        "power peak with window lengths that are not powers of two: complex tones are held to A^2 within 1e-9 (exact for every non-negative "
+        "window); real tones to A^2/2 within 1e-9 plus the relative image leakage of the exact (long-double) Welch estimate of the same segments",
         "nfft that is not a power of two is documented as unsupported; an exception or a well-formed result is accepted",
         "coherence letters are dense, so every bin has non-zero power; a non-finite coherence is reported as a failure",
         "complex frequency vector: any arithmetic progression of bin frequencies m/nfft inside [-0.5, 1) is accepted; the label check "
